@@ -31,7 +31,17 @@ def value_constructors(F, R, rule='B.C17.map'):
         rets = [str(p.ret) for p in explore(b) if p.end == 'return']
         rhs = '' if op == 'neg' else ', rhs'
         want = 'value::Mapping::Mapping(self.input_range, tuple(std::ops::%s::%s(self.output_range.0%s), std::ops::%s::%s(self.output_range.1%s)), self.easing)' % (tr, op, rhs, tr, op, rhs)
-        R.check(rets == [want], rule, '%s_output' % op, 'Mapping::%s_output builds %s: not the operation applied to each bound in place' % (op, [r[:160] for r in rets]),
+        good = rets == [want]
+        if not good and len(rets) == 1:
+            # the same through a private helper that takes the operation as a closure: whatever is applied, it is applied to the
+            # lower bound to give the new lower bound and - the very same expression - to the upper bound to give the upper one
+            from ..paths import parse_term
+            nm_, ar_ = parse_term(rets[0])
+            if nm_ == 'value::Mapping::Mapping' and ar_ and len(ar_) == 3 and ar_[0] == 'self.input_range' and ar_[2] == 'self.easing':
+                tn, ta = parse_term(ar_[1])
+                good = tn == 'tuple' and ta is not None and len(ta) == 2 and 'self.output_range.0' in ta[0] and 'self.output_range.1' not in ta[0] \
+                    and ta[0].replace('self.output_range.0', 'self.output_range.1') == ta[1]
+        R.check(good, rule, '%s_output' % op, 'Mapping::%s_output builds %s: not the operation applied to each bound in place' % (op, [r[:160] for r in rets]),
                 detail={'returns': rets[:1]}, nontrivial=False)
     R.floor(rule + '.ops', n, 6)
 
